@@ -563,7 +563,7 @@ func init() {
 		ID:     "C02",
 		Race:   true,
 		Run:    runC02,
-		Rule:   "seeded operation histories (def vK (op vI vJ …)) over conj concat cons assoc dissoc subvec rest vec seq take/take-last/drop/drop-last merge rename-keys with-meta assoc-in update update-in apply map, quasiquote splices (first/middle/last/vector/double), atoms storing pool values (swap!/reset!), closures capturing pool values, nesting; operands biased to parents already extended once, views and values whose backing array has spare capacity (measured by cap>len); after every step every earlier name is re-read through env.Get and compared with the canonical snapshot taken when it was bound; plus 8 threads deriving from 10 shared parents for 50 rounds under the race detector, each result checked against its own expected value; distinct = distinct histories",
+		Rule:   "seeded operation histories (def vK (op vI vJ …)) over conj concat cons assoc dissoc subvec rest vec seq take/take-last/drop/drop-last merge rename-keys with-meta assoc-in update update-in apply map, quasiquote splices (first/middle/last/vector/double), atoms storing pool values (swap!/reset!), closures capturing pool values, nesting; operands biased to parents already extended once, views and values whose backing array has spare capacity (measured by cap>len); after every step every earlier name is re-read through env.Get and compared with the canonical snapshot taken when it was bound; plus 8 threads deriving from 10 shared parents for 50 rounds under the race detector, each result checked against its own expected value; distinct = distinct histories; values seen through a closure that captured a binding which a tail-position let of the same scope (let, parameter, catch variable) then re-binds to an extended value",
 		Assume: []string{"reference objects (atoms, futures) are excluded by the statement", "race detector reports only the interleavings that occurred"},
 		Finish: func(m *fw.Merged) {
 			m.Floor("steps", 5000)
